@@ -24,8 +24,11 @@ VICTIM_CMDS = [
     b'EXPUNGE',
     b'COPY 1 Sent',
     b'UID MOVE 104 Trash',
+    b'COPY 3 Sent',
+    b'MOVE * Sent',
+    b'COPY 2:3 Sent',
 ]
-VICTIM_QUICK = [0, 2, 4, 5, 6, 7, 9, 10, 12]
+VICTIM_QUICK = [0, 2, 4, 5, 6, 7, 9, 10, 12, 15, 16]
 
 # what the other session does before a victim command (each is a list of raw commands)
 MUTATIONS = {
@@ -91,6 +94,25 @@ async def scenario(victim_prog, mut_prog, check_convergence=True, examine=False,
             break
         non_uid = not vc.upper().startswith(b'UID ') and vc.split()[0].upper() in (b'FETCH', b'STORE', b'SEARCH')
         count_before = len(view.uids)
+        uids_before = list(view.uids)
+        if vc.split()[0].upper() in (b'COPY', b'MOVE') and r['tagged'] and b' OK' in r['tagged'][:12]:
+            # sequence numbers of COPY / MOVE mean what the CLIENT holds under them: the source uids of COPYUID must be those
+            mcu = re.search(rb'\[COPYUID \d+ ([\d:,]+) [\d:,]+\]', b' '.join(r['all']))
+            spec = vc.split()[1]
+            want = set()
+            for part in spec.split(b','):
+                p_lo, _, p_hi = part.partition(b':')
+                lo = count_before if p_lo == b'*' else int(p_lo)
+                hi = lo if not p_hi else (count_before if p_hi == b'*' else int(p_hi))
+                want |= {uids_before[i - 1] for i in range(min(lo, hi), max(lo, hi) + 1) if 1 <= i <= count_before}
+            if mcu and None not in want:
+                got = set()
+                for part in mcu.group(1).split(b','):
+                    p_lo, _, p_hi = part.partition(b':')
+                    got |= set(range(int(p_lo), int(p_hi or p_lo) + 1))
+                if not got <= want:
+                    errors.append(f'{where}: {vc.decode()} copied uids {sorted(got)}; in the numbering the client holds '
+                                  f'({uids_before}) the addressed messages are {sorted(want)}')
         for u in r['untagged']:
             if non_uid and re.match(rb'^\* \d+ EXPUNGE', u):
                 errors.append(f'{where}: EXPUNGE sent while answering a non-UID {vc.split()[0].decode()}')
